@@ -357,6 +357,11 @@ func optionUses(fd *ast.FuncDecl) []string {
 					break
 				}
 			}
+		case *ast.KeyValueExpr:
+			// fields of composite literals (appencryption.Config{Service: options.ServiceName, …})
+			if _, isCall := t.Value.(*ast.CallExpr); !isCall && mentions(t.Value) {
+				out = append(out, "field "+goast.ExprString(t.Key)+"="+goast.ExprString(t.Value))
+			}
 		case *ast.IfStmt:
 			if mentions(t.Cond) {
 				out = append(out, "if "+goast.ExprString(t.Cond))
